@@ -471,6 +471,18 @@ func (x *Exec) static(st *State, fn *ssa.Function, c *ssa.CallCommon, args []SVa
 	if spec != nil && spec.Event != "" {
 		evName = spec.Event
 	}
+	// an unknown callee that is handed a slice may write its elements (sort.Slice, io.Reader.Read, copy helpers)
+	if spec == nil || spec.Modular == nil {
+		for _, a := range args {
+			if a.K == KSlice && a.Loc != "arr!nil" {
+				if _, ok := st.Heap[a.Loc]; ok {
+					es := x.elemSort(a)
+					st.Heap[a.Loc] = SVal{K: KU, T: q(x.D.fresh("arr@after:"+short, "(Array Int "+es+")"))}
+					st.Written[a.Loc] = true
+				}
+			}
+		}
+	}
 	res := x.freshResults(st, short, sig)
 	for i := range res {
 		if res[i].K == KU {
